@@ -674,6 +674,62 @@ func c19R6(p *engine.Prog, r *engine.Report) {
 		}
 		r.Check(ok, "C19-R6", "Config.SetApiKey|with no key configured, success only after a key was stored", p.Pos(setKey.Pos()), "every success path of the empty-key branch stores RPC.APIKey", "SetApiKey can return successfully with RPC.APIKey still empty (e.g. the key found in api.key is not applied): the server then enforces nothing")
 	}
+	// ... and what it stores is never the empty string: every definition reaching the store is a
+	// generated key or a value behind its own `!= ""` test
+	for _, b := range setKey.Blocks {
+		for _, ins := range b.Instrs {
+			st, isSt := ins.(*ssa.Store)
+			if !isSt {
+				continue
+			}
+			if _, fld, okF := engine.FieldOf(st.Addr); !okF || fld != "APIKey" {
+				continue
+			}
+			type leaf struct {
+				v  ssa.Value
+				at *ssa.BasicBlock
+			}
+			var leaves []leaf
+			var walk func(v ssa.Value, at *ssa.BasicBlock, seen map[ssa.Value]bool)
+			walk = func(v ssa.Value, at *ssa.BasicBlock, seen map[ssa.Value]bool) {
+				v = engine.Unwrap(v)
+				if ph, isPhi := v.(*ssa.Phi); isPhi && !seen[v] {
+					seen[v] = true
+					for i, e := range ph.Edges {
+						walk(e, ph.Block().Preds[i], seen)
+					}
+					return
+				}
+				leaves = append(leaves, leaf{v, at})
+			}
+			walk(st.Val, b, map[ssa.Value]bool{})
+			ok, why := true, ""
+			for _, lf := range leaves {
+				if c, isCall := lf.v.(*ssa.Call); isCall && engine.CallNameIs(c, "EncodeToString") {
+					continue // freshly generated key
+				}
+				if k, isK := lf.v.(*ssa.Const); isK && k.Value != nil && k.Value.ExactString() != `""` {
+					continue
+				}
+				g := guardsWhere(setKey, func(cond ssa.Value) (bool, bool, string) {
+					x, y, isEq, okC := eqCond(cond)
+					if !okC {
+						return false, false, ""
+					}
+					for _, pr := range [][2]ssa.Value{{x, y}, {y, x}} {
+						if engine.Unwrap(pr[0]) == lf.v && isConstString(pr[1], "") {
+							return true, !isEq, "value != \"\""
+						}
+					}
+					return false, false, ""
+				})
+				if len(g) == 0 || !engine.OnlyThroughPass(setKey, lf.at, g) {
+					ok, why = false, lf.v.String()
+				}
+			}
+			r.Check(ok && len(leaves) > 0, "C19-R6", "Config.SetApiKey|the stored key is never empty", p.InstrPos(st), "every value reaching the store is generated or tested != \"\"", "RPC.APIKey can be set to the empty string ("+why+" is stored without an emptiness test, e.g. a blank api.key file): NewServer(\"\") enforces nothing")
+		}
+	}
 	r.Floor("C19-R6", 5, "3 NewServer sites + 2 key loads")
 }
 
